@@ -177,13 +177,13 @@ private def hist : List Op :=
 `enc` terms with eight different nonces. -/
 example : outDataKeys (runOps (World.init (5 * nsPerSec)) hist).1 = [2, 3, 5] ∧
     (outNonces (runOps (World.init (5 * nsPerSec)) hist).1 ++ storeNonces (runOps (World.init (5 * nsPerSec)) hist).2).length = 8 := by
-  decide
+  decide +kernel
 
 /-- the log of the first encrypt: SK and IK are created, the IK (material 1) is wrapped under the
 SK (0), the payload goes under the DRK (2), the DRK under the IK. -/
 example : ((runOps (World.init (5 * nsPerSec)) (hist.take 3)).2.log.filter fun c =>
       match c with | .aeadEnc _ _ _ => true | .kmsEnc _ => true | _ => false) =
     [.kmsEnc false, .aeadEnc 0 (.key 1) false, .aeadEnc 2 (.payload 7) false, .aeadEnc 1 (.key 2) false] := by
-  decide
+  decide +kernel
 
 end AsherahVerif.Props.C03
